@@ -59,13 +59,20 @@ func runNBRandom(w *rt.World, res *hx.Result, kind int) *hx.Violation {
 		clN[c] = 1 + hx.G(maxReqs)
 	}
 	nClients := 2 + hx.G(maxClients-1)
+	reuseIDs := hx.G(2) == 0 // with shareHosts: client 2k+1 reuses the transaction ids of client 2k
+	prevBase := uint16(0)
 	shareHosts := hx.G(3) == 0 // clients 2k and 2k+1 sit on the same host (several connections from one address)
 	flood := hx.G(4) == 0      // client 0 sends a burst of up to 40 datagrams
 	floodN := 8 + hx.G(33)
 	junkOn := hx.G(4) == 0
 	junkN := 1 + hx.G(6)
+	if hx.G(4) == 0 {
+		junkN = 33 + hx.G(16) // more than any plausible bound on handlers / queue slots a server might keep
+	}
+	junkShape := hx.G(3)
 	churnOn := hx.G(3) != 0
 	churnRounds := 1 + hx.G(3)
+	churnNoise := hx.G(2) == 0 // refused two-record registrations between the steps
 	churnTCP := kind == 2 && hx.G(2) == 0
 	stopMode := hx.F(14) // 0..1: after the clients; 2..7: at a chosen time while they run; 8..9: when client 0 has sent its k-th request
 	// 10: when some SUT task is blocked on a channel; 11: when >= 3 packet handlers are alive; 12: when a SUT task waits for a lock
@@ -103,6 +110,15 @@ func runNBRandom(w *rt.World, res *hx.Result, kind int) *hx.Violation {
 		cl.noread = cl.linger && !cl.silent && clWindow[c] >= 2                 // pipelines its requests, never reads a response, keeps the connection open
 		cl.paced = cl.tcp && !cl.linger && clLinger[c] == 2 && clWindow[c] <= 1 // one request every 12 s on one connection
 		cl.stall = cl.tcp && !cl.linger && clLinger[c] == 3 && clWindow[c] >= 2 // first byte of a frame, 31 s pause, the rest
+		idKeep := idc
+		if reuseIDs && shareHosts && c%2 == 1 {
+			// this client sits on the same host as the previous one and uses the same transaction ids for other
+			// questions: (address, id) does not identify a request, the socket does
+			idc = prevBase
+			rt.Probe(PTwinIDs)
+		} else {
+			prevBase = idc
+		}
 		nreq := clN[c]
 		if flood && c == 0 {
 			nreq = floodN
@@ -136,6 +152,9 @@ func runNBRandom(w *rt.World, res *hx.Result, kind int) *hx.Violation {
 			cl.reqs = append(cl.reqs, &nbReq{id: idc, bytes: b, sig: stripID(b), tcp: cl.tcp, churn: churnQ})
 			cl.gaps = append(cl.gaps, g.gap)
 		}
+		if idc < idKeep {
+			idc = idKeep
+		}
 		if cl.tcp && clAbort[c] == 0 && !cl.linger && !cl.paced && !cl.stall {
 			total := 0
 			for _, r := range cl.reqs {
@@ -160,6 +179,11 @@ func runNBRandom(w *rt.World, res *hx.Result, kind int) *hx.Violation {
 			}
 		}
 		if churnOn {
+			if kind == 2 {
+				sys.table.RegisterName(churnUniq, nbtns.Unique, churnUniqIP, 24*time.Hour)
+			} else {
+				udpExchange(buildRequest(0x0441, 5, 0, nil, churnUniq, churnUniqIP, 86400, false), 3*time.Second)
+			}
 			for _, m := range churnMembers {
 				churnOp(sys, kind, 5, m)
 			}
@@ -216,8 +240,9 @@ func runNBRandom(w *rt.World, res *hx.Result, kind int) *hx.Violation {
 		}
 	}
 	if junkOn {
-		// A sender of datagrams whose header announces more questions than the datagram carries (cut after a
-		// complete question). What the server does with them is not judged here (decoder totality is C07); what is
+		// A sender of ill-formed datagrams: a header that announces more questions than the datagram carries (cut
+		// after a complete question), runts shorter than a header, requests cut inside the question -- a handful, or
+		// more than forty. What the server does with them is not judged here (decoder totality is C07); what is
 		// judged is that they leave nothing behind that leaks into the answers to the well-formed requests around them.
 		rt.GoHarness("junk-sender", "10.0.1.240", func() {
 			c, err := simnet.ListenUDP("udp4", &net.UDPAddr{})
@@ -227,9 +252,22 @@ func runNBRandom(w *rt.World, res *hx.Result, kind int) *hx.Violation {
 			defer c.Close()
 			for i := 0; i < junkN; i++ {
 				b := buildRequest(uint16(0x7700+i), 0, 0, []string{"GHOSTNAME"}, "", nil, 0, false)
-				b[5] = 2 // QDCOUNT = 2, one question present
+				shape := (i + junkShape) % 3
+				if junkN >= 30 {
+					shape = junkShape // a long series of one kind
+				}
+				switch shape {
+				case 0:
+					b[5] = 2 // QDCOUNT = 2, one question present
+				case 1:
+					b = b[:i%12] // shorter than a header
+				case 2:
+					b = b[:12+(i*7)%(len(b)-12)] // cut somewhere inside the question
+				}
 				c.WriteToUDP(b, &net.UDPAddr{IP: serverIP, Port: 137})
-				rt.SleepUntil(rt.Now() + int64(1+i%3)*1e6)
+				if junkN < 30 || i%8 == 7 {
+					rt.SleepUntil(rt.Now() + int64(1+i%3)*1e6)
+				}
 			}
 		})
 		rt.Probe(PJunk)
@@ -237,7 +275,7 @@ func runNBRandom(w *rt.World, res *hx.Result, kind int) *hx.Violation {
 	churnReliable := true
 	if churnOn {
 		tasks = append(tasks, rt.GoHarness("churner", "10.0.1.200", func() {
-			churnReliable = churner(churnTCP, churnRounds)
+			churnReliable = churner(churnTCP, churnRounds, churnNoise)
 		}))
 	}
 	var stopper *rt.Task
@@ -295,6 +333,12 @@ func runNBRandom(w *rt.World, res *hx.Result, kind int) *hx.Violation {
 	w.Quiet = true
 	churnClean := churnOn && churnReliable && !stoppedEarly && (churnTCP || (w.Stats.Probes[rt.PDgramDup] == 0 && w.Stats.Probes[rt.PDgramDelayed] == 0 && w.Stats.Probes[rt.PDgramDropped] == 0))
 	if churnClean {
+		for i, rc := range churnNoiseRcodes {
+			if rc == 0 {
+				return &hx.Violation{Class: "wrong_answer", Key: sysName + "/churn-refused-registration",
+					Msg: fmt.Sprintf("registration request #%d carrying [%s for a current member, %s which another node holds as a unique name] was acknowledged with rcode 0", i, churnName, churnUniq)}
+			}
+		}
 		for i, rc := range churnRcodes {
 			if rc != 0 {
 				st := churnCycle[i%len(churnCycle)]
@@ -688,6 +732,26 @@ var churnMembers = [...]net.IP{{10, 9, 0, 1}, {10, 9, 0, 2}, {10, 9, 0, 3}}
 // is back in its initial state.
 var churnCycle = [...]struct{ op, m int }{{6, 0}, {5, 0}, {6, 1}, {5, 1}, {6, 2}, {5, 2}}
 
+// churnNoiseReq: one registration request with two records -- the churn group for a node that is a member of it right
+// now, and a unique name held by another node. The second record must be refused; whatever the server does about the
+// first, that member's existing membership is not the request's to take away.
+const churnUniq = "CHURNUNIQ"
+
+var churnUniqIP = net.IP{10, 9, 0, 9}
+var churnNoiseRcodes []int
+
+func churnNoiseReq(id uint16, m net.IP) []byte {
+	p := &nbtns.NBTNSPacket{Header: nbtns.NBTNSHeader{TransactionID: id, Flags: 5<<11 | 0x0080, Answers: 2}}
+	for _, n := range []string{churnName, churnUniq} {
+		p.Answers = append(p.Answers, nbtns.NBTNSResourceRecord{Name: &nbtns.NetBIOSName{Name: n}, Type: 0x20, Class: 1, TTL: 86400, RDLength: uint16(len(m)), RData: m})
+	}
+	b, err := p.Marshal()
+	if err != nil {
+		panic("harness: cannot marshal request: " + err.Error())
+	}
+	return b
+}
+
 func churnReq(id uint16, op int, m net.IP) []byte {
 	flags := uint16(0)
 	if op == 5 {
@@ -714,9 +778,13 @@ func churnOp(sys *nbSystem, kind, op int, m net.IP) {
 // churnRcodes collects the response code of every acknowledged churn step (harness-private, read after the run).
 var churnRcodes []int
 
-func churner(tcp bool, rounds int) bool {
+func churner(tcp bool, rounds int, noise bool) bool {
 	id := uint16(0x0600)
 	churnRcodes = churnRcodes[:0]
+	churnNoiseRcodes = churnNoiseRcodes[:0]
+	if noise {
+		rt.Probe(PChurnNoise)
+	}
 	if tcp {
 		c, err := simnet.Dial("tcp", serverHost+":137")
 		if err != nil {
@@ -738,6 +806,20 @@ func churner(tcp bool, rounds int) bool {
 					return false
 				}
 				churnRcodes = append(churnRcodes, parseResponse(f).rcode)
+				if noise {
+					id++
+					req := churnNoiseReq(id, churnMembers[(st.m+1)%len(churnMembers)])
+					fr := make([]byte, 2, 2+len(req))
+					binary.BigEndian.PutUint16(fr, uint16(len(req)))
+					if _, err := c.Write(append(fr, req...)); err != nil {
+						return false
+					}
+					f := readFrame(c)
+					if f == nil {
+						return false
+					}
+					churnNoiseRcodes = append(churnNoiseRcodes, parseResponse(f).rcode)
+				}
 			}
 		}
 		return true
@@ -761,6 +843,12 @@ func churner(tcp bool, rounds int) bool {
 			}
 			if !acked {
 				return false
+			}
+			if noise {
+				id++
+				if resp := udpExchange(churnNoiseReq(id, churnMembers[(st.m+1)%len(churnMembers)]), time.Second); resp != nil {
+					churnNoiseRcodes = append(churnNoiseRcodes, parseResponse(resp).rcode)
+				}
 			}
 		}
 	}
